@@ -132,3 +132,203 @@ func vhC08EnumTypes(maxVal int) {
 }
 
 func vh_C08_enum_types_Q() { vhC08EnumTypes(3) }
+
+// ---- C08 closure of references
+//
+// Every $ref of the 3.0 document either resolves to an existing component or is left unresolved (nil Value): the
+// latter is what kin-openapi's Validate rejects ("found unresolved ref"), and the gate harness shows that a 3.0
+// validation failure blocks every output. The 3.1 document must not reference anything the 3.0 document does not,
+// because its references are only guarded by that same 3.0 pass.
+
+func vhWalk30(r *openapi3.SchemaRef, depth int, visit func(r *openapi3.SchemaRef)) {
+	if r == nil || depth > 4 {
+		return
+	}
+	visit(r)
+	if r.Ref != "" || r.Value == nil {
+		return
+	}
+	s := r.Value
+	for _, name := range vhSortedSchemaKeys(s.Properties) {
+		vhWalk30(s.Properties[name], depth+1, visit)
+	}
+	vhWalk30(s.Items, depth+1, visit)
+	vhWalk30(s.AdditionalProperties.Schema, depth+1, visit)
+	for _, part := range s.AllOf {
+		vhWalk30(part, depth+1, visit)
+	}
+}
+
+func vhSortedSchemaKeys(m openapi3.Schemas) []string {
+	var ks []string
+	for k := range m {
+		ks = append(ks, k)
+	}
+	return vhSortStrings(ks)
+}
+
+func vhWalk31(p *base.SchemaProxy, depth int, visit func(ref string)) {
+	if p == nil || depth > 4 {
+		return
+	}
+	if p.IsReference() {
+		visit(p.GetReference())
+		return
+	}
+	s := p.Schema()
+	if s == nil {
+		return
+	}
+	if s.Properties != nil {
+		for _, pp := range s.Properties.FromOldest() {
+			vhWalk31(pp, depth+1, visit)
+		}
+	}
+	if s.Items != nil {
+		vhWalk31(s.Items.A, depth+1, visit)
+	}
+	if s.AdditionalProperties != nil {
+		vhWalk31(s.AdditionalProperties.A, depth+1, visit)
+	}
+	for _, part := range s.AllOf {
+		vhWalk31(part, depth+1, visit)
+	}
+}
+
+var vhClosureTypes = []string{"string", "M", "X", "[]M", "[]X", "E", "map[string]X", "[][]X"}
+
+func vh_C08_refs_closed_returns_Q() { vhC08RefsClosed(false, true) }
+func vh_C08_refs_closed_params_Q()  { vhC08RefsClosed(true, false) }
+func vh_C08_refs_closed_T()         { vhC08RefsClosed(true, true) }
+
+func vhC08RefsClosed(symParam, symReturn bool) {
+	// models: M (with one field of an arbitrary type) is declared iff hasM; X never is; E is an enum declared iff hasE
+	hasM, hasE := symxBool("hasM"), symxBool("hasE")
+	models := &definitions.Models{Structs: []definitions.StructMetadata{{Name: definitions.Rfc7807ErrorName}}}
+	if hasM {
+		ft := vhClosureTypes[symxChoice("M.field", len(vhClosureTypes))]
+		models.Structs = append(models.Structs, definitions.StructMetadata{Name: "M", Fields: []definitions.FieldMetadata{{Name: "F", Type: ft, IsEmbedded: ft == "X" && symxBool("M.embedded")}}})
+	}
+	if hasE {
+		models.Enums = append(models.Enums, definitions.EnumMetadata{Name: "E", Type: "string", Values: []string{"x"}})
+	}
+	route := definitions.RouteMetadata{OperationId: "op", HttpVerb: definitions.HttpPost, RestMetadata: definitions.RestMetadata{Path: "/r"}, ResponseDescription: "ok", ResponseSuccessCode: 200, HasReturnValue: true}
+	pt, pin := "string", definitions.PassedInQuery
+	if symParam {
+		pt = vhClosureTypes[symxChoice("param.type", len(vhClosureTypes))]
+		pin = []definitions.ParamPassedIn{definitions.PassedInBody, definitions.PassedInQuery, definitions.PassedInForm}[symxChoice("param.in", 3)]
+	}
+	route.FuncParams = []definitions.FuncParam{{ParamMeta: definitions.ParamMeta{Name: "g", TypeMeta: definitions.TypeMetadata{Name: pt}}, PassedIn: pin, NameInSchema: "p"}}
+	rt, et := "string", "error"
+	if symReturn {
+		rt = vhClosureTypes[symxChoice("ret.type", len(vhClosureTypes))]
+		et = []string{"error", "X"}[symxChoice("err.type", 2)]
+	}
+	route.Responses = []definitions.FuncReturnValue{{Ordinal: 0, TypeMetadata: definitions.TypeMetadata{Name: rt}}, {Ordinal: 1, TypeMetadata: definitions.TypeMetadata{Name: et}}}
+	route.ErrorResponses = []definitions.ErrorResponse{{HttpStatusCode: 500, Description: "e"}}
+	defs := []definitions.ControllerMetadata{{Name: "Ctl", Tag: "T", RestMetadata: definitions.RestMetadata{Path: "/c"}, Routes: []definitions.RouteMetadata{route}}}
+	cfg := &definitions.OpenAPIGeneratorConfig{}
+
+	doc30, doc31 := vhNewDoc30(), vhNewDoc31()
+	err30 := swagen30.GenerateModelsSpec(doc30, models)
+	if err30 == nil {
+		err30 = swagen30.GenerateControllersSpec(doc30, cfg, defs)
+	}
+	if err30 != nil {
+		symxCover("C08.refs.generation-refused")
+		return // a refused generation writes nothing (gate harness)
+	}
+	exists := func(ref string) bool {
+		const pre = "#/components/schemas/"
+		if len(ref) <= len(pre) || ref[:len(pre)] != pre {
+			return false
+		}
+		_, ok := doc30.Components.Schemas[ref[len(pre):]]
+		return ok
+	}
+	blocked := false // some reference is left unresolved: the 3.0 validator refuses the document
+	var refs30 []string
+	visit := func(r *openapi3.SchemaRef) {
+		if r.Ref == "" {
+			return
+		}
+		refs30 = append(refs30, r.Ref)
+		if exists(r.Ref) {
+			symxCover("C08.refs.resolved")
+			return
+		}
+		symxCover("C08.refs.dangling")
+		symxAssert(r.Value == nil, "C08.refs.dangling-ref-is-left-unresolved-for-the-validator")
+		blocked = true
+	}
+	for _, name := range vhSortedSchemaKeys(doc30.Components.Schemas) {
+		vhWalk30(doc30.Components.Schemas[name], 0, visit)
+	}
+	for _, v := range vhOps30(doc30) {
+		op := v.op30
+		for _, p := range op.Parameters {
+			vhWalk30(p.Value.Schema, 0, visit)
+		}
+		if op.RequestBody != nil && op.RequestBody.Value != nil {
+			for _, ct := range []string{"application/json", "application/x-www-form-urlencoded"} {
+				if mt := op.RequestBody.Value.Content[ct]; mt != nil {
+					vhWalk30(mt.Schema, 0, visit)
+				}
+			}
+		}
+		respMap := op.Responses.Map()
+		var codes []string
+		for code := range respMap {
+			codes = append(codes, code)
+		}
+		for _, code := range vhSortStrings(codes) {
+			r := respMap[code]
+			if r != nil && r.Value != nil {
+				if mt := r.Value.Content["application/json"]; mt != nil {
+					vhWalk30(mt.Schema, 0, visit)
+				}
+			}
+		}
+	}
+	// 3.1: nothing referenced that 3.0 does not reference
+	err31 := swagen31.GenerateModelsSpec(doc31, models)
+	if err31 == nil {
+		err31 = swagen31.GenerateControllersSpec(doc31, cfg, defs)
+	}
+	if err31 != nil {
+		return
+	}
+	visit31 := func(ref string) {
+		symxAssert(vhContainsStr(refs30, ref), "C08.refs.31-references-only-what-30-references")
+	}
+	if doc31.Components != nil && doc31.Components.Schemas != nil {
+		for _, p := range doc31.Components.Schemas.FromOldest() {
+			vhWalk31(p, 0, visit31)
+		}
+	}
+	for _, v := range vhOps31(doc31) {
+		op := v.op31
+		for _, p := range op.Parameters {
+			vhWalk31(p.Schema, 0, visit31)
+		}
+		if op.RequestBody != nil && op.RequestBody.Content != nil {
+			for _, mt := range op.RequestBody.Content.FromOldest() {
+				if mt != nil {
+					vhWalk31(mt.Schema, 0, visit31)
+				}
+			}
+		}
+		if op.Responses != nil && op.Responses.Codes != nil {
+			for _, r := range op.Responses.Codes.FromOldest() {
+				if r != nil && r.Content != nil {
+					for _, mt := range r.Content.FromOldest() {
+						if mt != nil {
+							vhWalk31(mt.Schema, 0, visit31)
+						}
+					}
+				}
+			}
+		}
+	}
+	_ = blocked
+}
